@@ -20,7 +20,7 @@ func init() {
 func VerifC16_PassThroughAndRecord() {
 	verifOwnPanics()
 	mode := verifParam("schedule", 0, 2) // lazy, round-robin, <= 1 preemption
-	verifSchedule(mode, 1+verifTier()) // thorough: up to two preemptions
+	verifSchedule(mode, 1+verifTier())   // thorough: up to two preemptions
 	n := verifParam("length", 0, 5)
 	chunk := verifParam("chunk", 1, 3)
 	if mode == 0 && verifParam("full-blocks", 0, 1) == 1 {
